@@ -66,6 +66,15 @@ type ValIn struct {
 	V    int       `json:"v"`             // position in Input.Validators
 	Res  *Resolved `json:"res,omitempty"` // what ProposerConfig answers (nil = error)
 	Sign []bool    `json:"sign,omitempty"`
+	// what the accounts provider knows about the account in this operation: it validates from
+	// epoch From on (activation epoch) and until epoch Until, exclusive (exit epoch; 0 = no exit
+	// scheduled).  Missing = validating since genesis: the provider answers it whatever the epoch.
+	From  uint64 `json:"from,omitempty"`
+	Until uint64 `json:"until,omitempty"`
+}
+
+func (vi ValIn) validatingAt(epoch uint64) bool {
+	return vi.From <= epoch && (vi.Until == 0 || epoch < vi.Until)
 }
 
 type RegIn struct {
@@ -96,6 +105,7 @@ type LatIn struct {
 type Op struct {
 	Kind     string      `json:"kind"` // round | forward | prepare
 	Dt       uint64      `json:"dt"`   // whole seconds of (fake) time before the operation, >= 1
+	Epoch    uint64      `json:"epoch,omitempty"` // what the chain time service says the current epoch is
 	Cfg      bool        `json:"cfg"`  // an execution configuration is available
 	API      bool        `json:"api,omitempty"`
 	AcctErr  bool        `json:"acct_err,omitempty"`
@@ -180,6 +190,9 @@ type OpObs struct {
 	// requests abandoned because their context was cancelled while they were in flight (or before
 	// they started): "relay:<addr>", "node:<k>", "prepnode:<k>"; nothing was delivered to those peers
 	Aborted []string `json:"aborted,omitempty"`
+	// the epochs the accounts provider was asked for in this operation (for the reader of a replay
+	// file; not compared)
+	AskedEpochs []uint64 `json:"asked_epochs,omitempty"`
 	// real configuration: what it answered for each of op.Vals (nil = error) and for the keys of
 	// the forwarded registrations
 	Resolved  []*Resolved `json:"resolved,omitempty"`
@@ -321,6 +334,7 @@ type env struct {
 	nodes     []*[]RegObs
 	prepNodes []*[]PrepObs
 	aborted   []string
+	asked     []uint64 // the epochs the accounts provider was asked for
 	problem   string
 	// real configuration of the current operation and what it answered
 	real      *v2.ExecutionConfig
@@ -388,27 +402,50 @@ func (e *env) nodeLat(k int) uint64 {
 
 type accountsProvider struct{ e *env }
 
-func (p accountsProvider) ValidatingAccountsForEpoch(context.Context, phase0.Epoch) (map[phase0.ValidatorIndex]e2wtypes.Account, error) {
+// ValidatingAccountsForEpoch answers like services/accountmanager: the accounts whose validator is
+// active at the epoch ASKED FOR (not at the current one).
+func (p accountsProvider) ValidatingAccountsForEpoch(_ context.Context, epoch phase0.Epoch) (map[phase0.ValidatorIndex]e2wtypes.Account, error) {
 	p.e.mu.Lock()
 	defer p.e.mu.Unlock()
 	if p.e.op.AcctErr {
 		return nil, errors.New("scripted accounts failure")
 	}
-	return p.e.accounts(), nil
+	p.e.asked = append(p.e.asked, uint64(epoch))
+	res := make(map[phase0.ValidatorIndex]e2wtypes.Account, len(p.e.op.Vals))
+	for _, vi := range p.e.op.Vals {
+		if !vi.validatingAt(uint64(epoch)) {
+			continue
+		}
+		v := p.e.in.Validators[vi.V]
+		res[phase0.ValidatorIndex(v.Index)] = account{v}
+	}
+	return res, nil
 }
 
-func (p accountsProvider) ValidatingAccountsForEpochByIndex(ctx context.Context, epoch phase0.Epoch, _ []phase0.ValidatorIndex) (map[phase0.ValidatorIndex]e2wtypes.Account, error) {
-	return p.ValidatingAccountsForEpoch(ctx, epoch)
+func (p accountsProvider) ValidatingAccountsForEpochByIndex(ctx context.Context, epoch phase0.Epoch, indices []phase0.ValidatorIndex) (map[phase0.ValidatorIndex]e2wtypes.Account, error) {
+	all, err := p.ValidatingAccountsForEpoch(ctx, epoch)
+	if err != nil {
+		return nil, err
+	}
+	res := make(map[phase0.ValidatorIndex]e2wtypes.Account, len(indices))
+	for _, i := range indices {
+		if a, ok := all[i]; ok {
+			res[i] = a
+		}
+	}
+	return res, nil
 }
 
 func (p accountsProvider) SyncCommitteeAccountsForEpoch(ctx context.Context, epoch phase0.Epoch) (map[phase0.ValidatorIndex]e2wtypes.Account, error) {
 	return p.ValidatingAccountsForEpoch(ctx, epoch)
 }
 
-func (p accountsProvider) SyncCommitteeAccountsForEpochByIndex(ctx context.Context, epoch phase0.Epoch, _ []phase0.ValidatorIndex) (map[phase0.ValidatorIndex]e2wtypes.Account, error) {
-	return p.ValidatingAccountsForEpoch(ctx, epoch)
+func (p accountsProvider) SyncCommitteeAccountsForEpochByIndex(ctx context.Context, epoch phase0.Epoch, indices []phase0.ValidatorIndex) (map[phase0.ValidatorIndex]e2wtypes.Account, error) {
+	return p.ValidatingAccountsForEpochByIndex(ctx, epoch, indices)
 }
 
+// accounts: what the caller of the API hands over (every account of the operation, whatever the
+// provider knows about its activation).
 func (e *env) accounts() map[phase0.ValidatorIndex]e2wtypes.Account {
 	res := make(map[phase0.ValidatorIndex]e2wtypes.Account, len(e.op.Vals))
 	for _, vi := range e.op.Vals {
@@ -760,7 +797,8 @@ func runInBubble(t *testing.T, in Input) Obs {
 		e.relays = map[uint64][]RegObs{}
 		e.nodes = make([]*[]RegObs, in.NNodes)
 		e.prepNodes = make([]*[]PrepObs, in.NPrepNodes)
-		e.aborted = nil
+		e.aborted, e.asked = nil, nil
+		ct.SetEpoch(op.Epoch)
 		now := e.stamp(time.Now())
 		e.real, e.resolved, e.fresolved = nil, map[uint64]*Resolved{}, nil
 		if op.RealCfg != "" {
@@ -920,6 +958,10 @@ func runInBubble(t *testing.T, in Input) Obs {
 		}
 		oo.Nodes = e.nodes
 		oo.PrepNodes = e.prepNodes
+		oo.AskedEpochs = append([]uint64{}, e.asked...)
+		if len(oo.AskedEpochs) == 0 {
+			oo.AskedEpochs = nil
+		}
 		oo.Aborted = append([]string{}, e.aborted...)
 		sort.Strings(oo.Aborted)
 		if len(oo.Aborted) == 0 {
@@ -1005,6 +1047,31 @@ func gVals(in Input, op Op, order []int) string {
 	return List(items)
 }
 
+// gWins: the activation windows of the accounts, in the order gVals prints them; empty when no
+// account of the operation has one (missing = (0, 0) = validating since genesis).
+func gWins(op Op, order []int) string {
+	any := false
+	for _, vi := range op.Vals {
+		if vi.From != 0 || vi.Until != 0 {
+			any = true
+		}
+	}
+	if !any {
+		return List(nil)
+	}
+	if len(order) != len(op.Vals) {
+		order = nil
+		for k := range op.Vals {
+			order = append(order, k)
+		}
+	}
+	items := make([]string, 0, len(op.Vals))
+	for _, k := range order {
+		items = append(items, Pair(N(op.Vals[k].From), N(op.Vals[k].Until)))
+	}
+	return List(items)
+}
+
 func term(id uint64, in Input, obs Obs) string {
 	ops := make([]string, 0, len(in.Ops))
 	outs := make([]string, 0, len(in.Ops))
@@ -1044,7 +1111,7 @@ func term(id uint64, in Input, obs Obs) string {
 			for k := 0; k < in.NNodes; k++ {
 				nodes = append(nodes, Bool(!(k < len(op.Nodes) && op.Nodes[k] == "err")))
 			}
-			ops = append(ops, App("ORound", App("Build_round_in", N(oo.Now), Bool(op.Cfg), Bool(op.API), Bool(op.AcctErr),
+			ops = append(ops, App("EJob", N(op.Epoch), gWins(op, oo.Order), App("Build_round_in", N(oo.Now), Bool(op.Cfg), Bool(op.API), Bool(op.AcctErr),
 				gVals(in, op, oo.Order), gKinds(op.Relays), List(nodes))))
 		case "forward":
 			inc := make([]string, 0, len(op.Incoming))
@@ -1063,7 +1130,7 @@ func term(id uint64, in Input, obs Obs) string {
 				}
 				rs = append(rs, Pair(N(r.Pub), Some(List(as))))
 			}
-			ops = append(ops, App("OForward", App("Build_forward_in", Bool(op.Cfg), List(inc), List(rs), gKinds(op.Relays))))
+			ops = append(ops, App("EOp", App("OForward", App("Build_forward_in", Bool(op.Cfg), List(inc), List(rs), gKinds(op.Relays)))))
 		case "prepare":
 			nodes := make([]string, 0, in.NPrepNodes)
 			for k := 0; k < in.NPrepNodes; k++ {
@@ -1078,7 +1145,7 @@ func term(id uint64, in Input, obs Obs) string {
 				}
 				nodes = append(nodes, kind)
 			}
-			ops = append(ops, App("OPrepare", App("Build_prepare_in", Bool(op.Cfg), N(in.Fallback), Bool(op.AcctErr), gVals(in, op, oo.Order), List(nodes))))
+			ops = append(ops, App("EPrep", N(op.Epoch), gWins(op, oo.Order), App("Build_prepare_in", Bool(op.Cfg), N(in.Fallback), Bool(op.AcctErr), gVals(in, op, oo.Order), List(nodes))))
 		}
 		if i >= len(obs.Ops) {
 			continue // a panic: fewer outputs than operations; neither agree nor P_b can hold
@@ -1111,7 +1178,7 @@ func term(id uint64, in Input, obs Obs) string {
 	if obs.Problem != "" {
 		outs = nil // the harness itself saw something impossible: make the case fail loudly
 	}
-	return Record("c_id", N(id), "c_ops", List(ops), "c_timing", List(timing), "c_outs", List(outs))
+	return Record("c_id", N(id), "c_eops", List(ops), "c_timing", List(timing), "c_outs", List(outs))
 }
 
 func gRelays(rs []RelayObs) string {
@@ -1246,6 +1313,27 @@ func inputTags(in Input) []string {
 				}
 			}
 		}
+		if op.Kind == "round" && !op.API || op.Kind == "prepare" {
+			who := "job"
+			if op.Kind == "prepare" {
+				who = "preparer"
+			}
+			for _, vi := range op.Vals {
+				if op.AcctErr {
+					break
+				}
+				switch {
+				case vi.From == op.Epoch+1 && vi.validatingAt(op.Epoch+1):
+					tags = addTag(tags, who+":activating-next-epoch")
+				case vi.From > op.Epoch+1:
+					tags = addTag(tags, who+":not-yet-about-to-be-active")
+				case vi.Until != 0 && vi.Until == op.Epoch+1 && vi.validatingAt(op.Epoch):
+					tags = addTag(tags, who+":on-its-last-epoch")
+				case vi.Until != 0 && vi.Until <= op.Epoch:
+					tags = addTag(tags, who+":exited")
+				}
+			}
+		}
 		if op.RealCfg != "" {
 			tags = addTag(tags, "realcfg")
 			if strings.Contains(op.RealCfg, zeroProposer) {
@@ -1341,7 +1429,7 @@ func TestC11(t *testing.T) {
 	zerologger.Logger = zerolog.New(io.Discard)
 	deadlock.Opts.Disable = true
 	col := NewCollector("C11", "Check.C11",
-		"histories of 2-9 operations (registration rounds by the job or the API, REST forwarding, proposal preparations) over 1-6 validators, 0-3 relays with per-relay settings, 0-3 secondary and 1-3 preparation beacon nodes, with settings changing between rounds (A->B->A included) and failing subsets of relays / nodes / signing requests / validators; in half of the histories relays and beacon nodes take time (0-250 ms, sometimes seconds; failing ones mostly fast) and abandon a request whose context is cancelled first, as real clients do, and a request counts only when it arrives; run on the real block relay and proposal preparer services in a synctest bubble. Non-trivial = at least two rounds did their work, a signature was made and a cached registration was reused; distinct by input text")
+		"histories of 2-9 operations (registration rounds by the job or the API, REST forwarding, proposal preparations) over 1-6 validators, 0-3 relays with per-relay settings, 0-3 secondary and 1-3 preparation beacon nodes, with settings changing between rounds (A->B->A included) and failing subsets of relays / nodes / signing requests / validators; in half of the histories relays and beacon nodes take time (0-250 ms, sometimes seconds; failing ones mostly fast) and abandon a request whose context is cancelled first, as real clients do, and a request counts only when it arrives; in half of the histories the chain time advances over epochs and the accounts provider, which answers the accounts validating at the epoch it is ASKED for, knows validators that activate (at some operation: at the next epoch), exit or stay pending during the history; run on the real block relay and proposal preparer services in a synctest bubble. Non-trivial = at least two rounds did their work, a signature was made and a cached registration was reused; distinct by input text")
 	col.ShardSize = 100 // the terms are long: about 60 ms per case in coqc
 	n := EnvInt("VERIF_N", 500)
 	thorough := os.Getenv("VERIF_TIER") == "thorough"
@@ -1398,7 +1486,7 @@ func TestC11(t *testing.T) {
 			}
 		}
 		for _, tg := range tags {
-			if strings.Contains(tg, "in-flight") || tg == "timed" || tg == "slow-peer" || tg == "signer-takes-time" {
+			if strings.Contains(tg, "in-flight") || tg == "activation" || strings.HasPrefix(tg, "job:") || strings.HasPrefix(tg, "preparer:") || tg == "timed" || tg == "slow-peer" || tg == "signer-takes-time" {
 				col.Count("family:" + tg)
 			}
 		}
